@@ -527,8 +527,19 @@ class StmtMixin:
                 names.discard(r)
         names |= set(extra_names)
         topc = self.m.contracts.get(self.cur_fn_stack[0])
-        if topc is not None and len(self.cur_fn_stack) == 1:
-            names |= set(topc.ghost_init)
+        if topc is not None and len(self.cur_fn_stack) == 1 and topc.ghost_init:
+            # ghost variables are havoced only when an anchor statement that updates them lies in the body
+            # (a regular-expression anchor may match anything: then all of them are)
+            import re as _re
+            texts = set()
+            for b in body_nodes:
+                for sub in ast.walk(b):
+                    if isinstance(sub, ast.stmt) and not isinstance(sub, (ast.If, ast.While, ast.For, ast.Try)):
+                        texts.add(ast.unparse(sub))
+            for pat, upd in topc.ghost_after.items():
+                hit = any(_re.fullmatch(pat[3:], t) for t in texts) if pat.startswith('re:') else pat in texts
+                if hit:
+                    names |= {g for g, _e in upd if g in topc.ghost_init}
         for n in sorted(names):
             declared = (lc.types.get(n) if lc else None) or self.local_types.get(n)
             cur = st.env.get(n)
@@ -772,6 +783,9 @@ class StmtMixin:
         st.env[kname] = mk_int(0)
         st.env['_n%d' % k] = mk_int(n)
         if lc is None:
+            if getattr(self.m.contracts.get(self.cur_fn_stack[-1]), 'auto_inlined', False):
+                # a helper executed in place because it has no contract: nothing to abstract its loop by
+                raise OutOfSubset('loop#%d in a function without contract' % k, node)
             lc = Loop()
         st.ghost['__loop_entry__%d' % k] = st.fork()
         self.check_inv(st, lc, k, line, 'entry', entry_old)
